@@ -8,6 +8,7 @@ pub mod c07;
 pub mod c15;
 pub mod consume;
 pub mod exec;
+pub mod ext;
 pub mod fuzz;
 pub mod gen;
 pub mod interp;
